@@ -72,6 +72,8 @@ func GenRunSpec(procSeed uint64, idx int, pool []*Key, eligible []int) RunSpec {
 	sharedFor := map[string]int{}
 	for t := 0; t < nt; t++ {
 		var ts TaskSpec
+		// some callers do everything through their one options value
+		style := []string{"", "", "", "", "", "", "reused", "refilled"}[r.Intn(8)]
 		nc := r.Range(1, 4)
 		for c := 0; c < nc; c++ {
 			var ki int
@@ -85,6 +87,9 @@ func GenRunSpec(procSeed uint64, idx int, pool []*Key, eligible []int) RunSpec {
 			cs := CallSpec{Key: ki, Form: forms[r.Intn(len(forms))]}
 			if k.API == "compile" && r.Chance(1, 3) {
 				cs.Form = []string{"shared", "sharedopts"}[r.Intn(2)]
+			}
+			if k.API == "compile" && style != "" {
+				cs.Form = style
 			}
 			if IsSharedForm(cs.Form) {
 				// one shared object per distinct parameter content per run
@@ -168,6 +173,7 @@ func GenHistorySpec(procSeed uint64, idx int, pool []*Key, eligible []int) RunSp
 	sharedFor := map[string]int{}
 	for t := 0; t < nt; t++ {
 		var ts TaskSpec
+		style := []string{"", "", "", "reused", "refilled", "refilled"}[r.Intn(6)]
 		nc := r.Range(80, 200)
 		for c := 0; c < nc; c++ {
 			var ki int
@@ -179,6 +185,9 @@ func GenHistorySpec(procSeed uint64, idx int, pool []*Key, eligible []int) RunSp
 			k := pool[ki]
 			forms := k.OptForms()
 			cs := CallSpec{Key: ki, Form: forms[r.Intn(len(forms))]}
+			if k.API == "compile" && style != "" && !r.Chance(1, 10) {
+				cs.Form = style
+			}
 			if IsSharedForm(cs.Form) {
 				sig := SharedSig(k, cs.Form)
 				id, ok := sharedFor[sig]
